@@ -10,6 +10,9 @@ TRUST = ("TLC explores the bounded model exhaustively; the code is bound by exec
 
 FRAME_TECH = "TLA+ spec (Frame/FrameOps/GroupOps) + TLC exhaustive enumeration of frames x arguments + monitor-style trace validation of real DataFrame calls"
 CHECKS = {
+ "C05": dict(engine="JoinOps",
+   text="JoinOps.tla: first-match left/inner/semi/anti joins (constructive) and the FullJoinOK predicate; JoinOpsMC model-checks LeftKeepsAll, SemiAntiPartition, InnerIsMatchedSubset, NAnevermatch on every pair of operand frames in the bound; seeded pairs (all empty/single-row combinations included) are executed with all five joins, same-name and renamed keys, mixed int/float key dtypes, nine payload dtypes for NA filling, and judged by the JoinOpsTrace monitor.",
+   design="§3 C05", technique="TLA+ spec (JoinOps) + TLC exhaustive model check of the operand-pair space + monitor-style trace validation of real join calls"),
  "C02": dict(engine="FrameOps",
    text="FrameOpsMC enumerates every frame (two key columns + row id, <=3 rows) and every argument record (all masks, index vectors, n, key subsets, column=value pairs) and model-checks the constructive subset operators against independent declarative restatements; the enumerated cases are executed on the real DataFrame on random pairs of 17 dtype palettes (float with inf/-0.0/2^53, long/short/fixed-width/astral strings, dates, object...) and every result is judged by the FrameOpsTrace monitor through the row-id column.",
    design="§3 C02", technique=FRAME_TECH),
@@ -26,6 +29,7 @@ CHECKS = {
    design="§3 C11", technique="TLA+ spec (VectorOps) + TLC exhaustive enumeration + monitor-style trace validation of real calls"),
 }
 ENGINES = [
+ dict(name="JoinOps", path="spec/JoinOps.tla", serves_properties=["C05"], kind_free_text="TLA+ JoinOps operators/predicates + JoinOpsMC + JoinOpsTrace monitor (TLC)"),
  dict(name="FrameOps", path="spec/FrameOps.tla", serves_properties=["C02", "C03"], kind_free_text="TLA+ Frame/FrameOps operators + FrameOpsMC generator + FrameOpsTrace monitor (TLC)"),
  dict(name="GroupOps", path="spec/GroupOps.tla", serves_properties=["C04"], kind_free_text="TLA+ GroupOps predicates + FrameOpsMC(Which=group) + GroupOpsTrace monitor (TLC)"),
  dict(name="VectorOps", path="spec/VectorOps.tla", serves_properties=["C11"], kind_free_text="TLA+ operators/predicates + VectorOpsMC generator + VectorOpsTrace monitor (TLC)"),
